@@ -1,7 +1,7 @@
 (* JudgeSoundC20P.v — the executable properties of Check/C20_check.v (leaf_ok, struct_ok, jprint_ok, jparse_ok, sort_ok)
    tied to the Prop-level clauses of Props/C20.v. *)
 Require Import Verif.Model.Base Verif.Proofs.BaseP Verif.Model.Codec Verif.Proofs.CodecP.
-Require Import Verif.Model.JsonText Verif.Proofs.JsonTextP Verif.Check.C20_check.
+Require Import Verif.Model.JsonText Verif.Proofs.JsonTextP Verif.Check.C20_check Verif.Proofs.CodecDecP.
 
 (* ---------- reflection of the boolean equalities of the case types ---------- *)
 Lemma js20_option_eqb_eq {A} (e : A -> A -> bool) : (forall a b, e a b = true <-> a = b) ->
@@ -266,6 +266,45 @@ Proof.
   destruct (Hd v' eq_refl) as [Hwt Hj]. rewrite Hwt, Hj. cbn [andb].
   rewrite (proj2 (text_eqb_eq _ _) eq_refl). cbn [andb]. apply js20_val_opt_eq. now apply text_roundtrip.
 Qed.
+(* (a) foreign bytes, premise discharged (Proofs/CodecDecP.v: the model decoder yields a well-typed value of the subset
+   for EVERY byte string it accepts).  What remains are facts of the Go type descriptor alone: member names distinct
+   after case folding ([wf_ty], tested by struct_ok itself), opaque zero tokens scalar and member names ASCII ([ty_ok]),
+   nesting below the scanner's limit of 10000 - the harness derives the descriptor from the Go type by reflection
+   (zero tokens "0001-01-01T00:00:00Z", 0, "0s", null; Go identifiers as member names; nesting below 20). *)
+Theorem struct_model_passes_foreign_all t v fb :
+  wf_ty t = true -> ty_ok t = true -> (ty_depth t <= max_depth)%N ->
+  struct_ok (t, v, Some fb) (struct_model (t, v, Some fb)) = true.
+Proof.
+  intros Hwf Hok Hd. apply struct_model_passes_foreign; [exact Hwf|]. intros v' E.
+  destruct (decode_text_wt t fb v' Hok Hd E) as (W & _ & J). now split.
+Qed.
+(* both kinds of case at once, with side conditions on the descriptor and (honest cases) on the value only *)
+Theorem struct_model_passes_all t v f :
+  wf_ty t = true -> ty_ok t = true -> (ty_depth t <= max_depth)%N ->
+  (f = None -> wt t v = true /\ txt_ok t v = true) ->
+  struct_ok (t, v, f) (struct_model (t, v, f)) = true.
+Proof.
+  intros Hwf Hok Hd Hv. destruct f as [fb|]; [now apply struct_model_passes_foreign_all|].
+  destruct (Hv eq_refl) as [W T]. apply struct_model_passes_honest; [exact Hwf|exact W|now apply enc_wf_json].
+Qed.
+(* (b) for foreign bytes, without trusting the three tests struct_ok makes on the decoded value: whenever the
+   implementation's decoder agrees with the model's on the accepted bytes, those tests are consequences *)
+Theorem struct_foreign_agree_sound t fb v' :
+  wf_ty t = true -> ty_ok t = true -> (ty_depth t <= max_depth)%N -> decode_text t fb = Some v' ->
+  wt t v' = true /\ wf_json (enc t v') = true /\
+  decode_text t (encode_text t v') = Some (norm t v') /\ encode_text t (norm t v') = encode_text t v'.
+Proof.
+  intros Hwf Hok Hd E. destruct (decode_text_wt t fb v' Hok Hd E) as (W & _ & J).
+  destruct (text_idempotent_all t fb v' Hwf Hok Hd E) as [R1 R2]. repeat split; assumption.
+Qed.
+Example struct_ok_foreign_example :
+  let t := TStruct [([97]%N, TUint 255); ([98]%N, TSlice (TPtr TBool))] in
+  let fb := [123; 32; 34; 65; 34; 58; 55; 44; 34; 98; 34; 58; 91; 116; 114; 117; 101; 44; 110; 117; 108; 108; 93; 125]%N in
+  wf_ty t = true /\ ty_ok t = true /\ (ty_depth t <= max_depth)%N /\
+  struct_model (t, VRec [], Some fb) =
+    (encode_text t (VRec [VU 7; VList (Some [VPtr (Some (VBool true)); VPtr None])]),
+     Some (VRec [VU 7; VList (Some [VPtr (Some (VBool true)); VPtr None])]), true).
+Proof. vm_compute. repeat split; try reflexivity. discriminate. Qed.
 Example struct_ok_example :
   struct_ok (TStruct [([97]%N, TUint 255); ([98]%N, TSlice TBool)], VRec [VU 7; VList None], None)
             (encode_text (TStruct [([97]%N, TUint 255); ([98]%N, TSlice TBool)]) (VRec [VU 7; VList None]),
